@@ -599,6 +599,50 @@ func (c05) Gen(tier string, seed int64, emit func([]Ev)) {
 		}
 		c05Mutations(r, cat, false, func(m []byte, src string) { one("psi.FilterPMTPacketsToPids", m, r.Intn(8192), src) })
 	}
+	// tables of several packets with an odd packet put in at every position: one with the payload flag and no payload
+	// byte (adaptation field of 183 bytes), an adaptation-field-only packet, an over-long adaptation field, a packet of
+	// another PID, a repeated packet, a second unit start
+	for k := 0; k < rounds; k++ {
+		pmt := randPMT(r, 30+r.Intn(60), false)
+		pl := c06Payload(0, nil, pmtSection(pmt), 0)
+		pk := packetise(r, pl, splitSizes(len(pl), minInt(len(pl), 1+r.Intn(184))), 0x100, k%2 == 0)
+		for at := 0; at <= len(pk); at++ {
+			for v := 0; v < 6; v++ {
+				if !dense && at > 3 && (at+v+k)%3 != 0 {
+					continue
+				}
+				var odd packet.Packet
+				for i := range odd {
+					odd[i] = 0xff
+				}
+				odd[0], odd[1], odd[2], odd[3], odd[4], odd[5] = 0x47, 0x01, 0x00, 0x30, 183, 0
+				switch v {
+				case 1:
+					odd[3] = 0x20
+				case 2:
+					odd[4] = []byte{184, 200, 255}[r.Intn(3)]
+				case 3:
+					odd[2], odd[3] = 0x01, 0x10
+				case 4:
+					if at > 0 {
+						odd = pk[at-1]
+					}
+				case 5:
+					odd = pk[0]
+				}
+				var cat []byte
+				for i := 0; i <= len(pk); i++ {
+					if i == at {
+						cat = append(cat, odd[:]...)
+					}
+					if i < len(pk) {
+						cat = append(cat, pk[i][:]...)
+					}
+				}
+				one("psi.FilterPMTPacketsToPids", cat, r.Intn(8192), "odd-packet")
+			}
+		}
+	}
 	// payloads that hold no program map section at all: the pointer_field leads to the very end, to stuffing, to another
 	// table or to a section cut short; requested PIDs include the PAT PID (ignored by the filter's presence test)
 	for _, ptr := range []int{0, 1, 100, 149, 182, 183} {
